@@ -286,8 +286,8 @@ loop:
 	sort.Strings(errs)
 	a.mu.Lock()
 	b.mu.Lock()
-	res := fmt.Sprintf("AB=%s;BA=%s;errs=%s;cA=%d;cB=%d;chan=%s", callsTok(b.calls), callsTok(a.calls),
-		hlib.Join(errs, ","), a.closes, b.closes, chanState)
+	res := fmt.Sprintf("AB=%s;BA=%s;errs=%s;cA=%d;cB=%d;chan=%s;cap=%d", callsTok(b.calls), callsTok(a.calls),
+		hlib.Join(errs, ","), a.closes, b.closes, chanState, cap(ch))
 	b.mu.Unlock()
 	a.mu.Unlock()
 	lhs := "pipe2 " + readsTok(ar) + " " + writesTok(aw) + " " + readsTok(br) + " " + writesTok(bw)
